@@ -515,6 +515,17 @@ def templates(tier="quick"):
     T.append(scenario("missing_source/fresh", "template", [v], ops=mops, init=[], depth=2, tags=["missing-source", "fresh"]))
     T.append(scenario("missing_source/built", "template", [v], ops=mops, init=[mb], depth=d, tags=["missing-source", "built"]))
 
+    # T32a a declared source that the recorded dependencies of *another*, up-to-date statement name as well (a header that is
+    # also somebody's explicit input): what a dependency list says about a file does not make it optional where it is declared
+    for kind, kw in (("gcc", {"deps": "gcc"}), ("depfile", {"depfile": True})):
+        v = Variant("v0", [Stmt("b", ex=["t"], hidden=["shared.h"], **kw), Stmt("a", ex=["shared.h", "s"]), Stmt("top", ex=["b", "a"])])
+        mops = [{"op": "rm", "path": "shared.h", "label": "rm source shared.h"}, {"op": "edit", "path": "s", "label": "edit s"},
+                {"op": "write", "path": "shared.h", "content": "shared.h-back\n", "label": "restore shared.h"}]
+        mb = len(mops)
+        mops += [ninja_op(j=1), ninja_op(j=2, k=0), ninja_op(targets=["a"], j=1)]
+        T.append(scenario("missing_source_also_a_recorded_dependency_%s/built" % kind, "template", [v], ops=mops, init=[mb], depth=min(d, 3),
+                          tags=["missing-source", "deps", "built"]))
+
     # T32b the same for a source that only an (existing, up-to-date) dyndep file names as an implicit input
     v = Variant("v0", [Stmt("a", ex=["s"]), Stmt("e", ex=["w"], oo=["dd"], dyndep="dd", extra_reads=["gsrc"]), Stmt("top", ex=["a", "e"])])
     mops = [{"op": "rm", "path": "gsrc", "label": "rm source gsrc"}, {"op": "edit", "path": "w", "label": "edit w"},
